@@ -314,6 +314,11 @@ func c13Decode(part, parts int, maxLen int) func(r *vp.InstResult) {
 				addViol(r, "C13/decode-panic", panicFunc(d.stack)+": "+classOfPanic(d.panicked), fmt.Sprintf("decoding %s panics: %v", what, d.panicked), b)
 			case d.err != nil:
 				outcome["error:"+errClass(d.err)]++
+			case d.msg == nil || d.msg.Message == nil || d.msg.Metadata == nil:
+				// "an error or a message": the generated handlers and stubs assert the message's type unchecked,
+				// so a decode that reports success must have delivered one
+				outcome["success-without-message"]++
+				addViol(r, "C13/decoded-without-message", "success without a message", fmt.Sprintf("decoding %s reports success but delivers no message (the generated code's type assertion on it would panic)", what), b)
 			default:
 				outcome["message"]++
 			}
